@@ -308,15 +308,59 @@ def check_keyval(s, nodelist, acc):
                               observed=repr(got)[:600], expected=repr(want)[:600])
 
 
+KV_ALPHA = ['a=', 'b=', ',', '{b}', 'a', 'b', '{}', ' ']
+
+
+def check_keyval_purity(s, acc):
+    """parse_keyval_content must not modify the node list it is called on (nor the caller's default value list):
+    calling it again, and calling it after another policy, gives the same answer on an unchanged tree."""
+    from pylatexenc.latexnodes.nodes import LatexNodeList, LatexCharsNode
+    st, res = run_guarded(contexts.parse, s, 'D', False)
+    if st != 'ok':
+        return
+    nodelist = res[1]
+    before = canon.canon_node(nodelist)
+    check_keyval(s, nodelist, acc)
+    for policy in POLICIES:
+        for use_default in (False, True):
+            kw = {}
+            dflt = None
+            if use_default:
+                dflt = LatexNodeList([LatexCharsNode(chars='D', pos=None, pos_end=None)])
+                kw['default_value_nodelist'] = dflt
+            acc.count('evaluations')
+            results = []
+            for rep in range(3):
+                stp, r = run_guarded(nodelist.parse_keyval_content, repeated_key_aggregate_action=policy, **kw)
+                if stp == 'ok':
+                    results.append({k: _desc_nodes(_seq(v)) for k, v in r.items()})
+                else:
+                    results.append(('raised', type(r).__name__))
+            case = dict(s=s, policy=policy, default=use_default)
+            if canon.canon_node(nodelist) != before:
+                acc.violation(ID, 'kvpure', case, dict(kind='keyval-parsing-modified-the-node-list', policy=policy),
+                              observed=repr(canon.canon_node(nodelist))[:500], expected=repr(before)[:500])
+                return
+            if dflt is not None and [getattr(n, 'chars', None) for n in dflt.nodelist] != ['D']:
+                acc.violation(ID, 'kvpure', case, dict(kind='keyval-parsing-modified-the-default-value-list', policy=policy),
+                              observed=repr([getattr(n, 'chars', None) for n in dflt.nodelist]))
+                return
+            if results[0] != results[1] or results[1] != results[2]:
+                acc.violation(ID, 'kvpure', case, dict(kind='keyval-result-changes-when-repeated', policy=policy),
+                              observed=repr(results[1])[:400], expected=repr(results[0])[:400])
+                return
+
+
 def plan(tier):
     b = BOUNDS[tier]
     shards = [('w', sh) for sh in words.prefix_shards(ALPHA, b['N'], 2)]
+    shards += [('kv', sh) for sh in words.prefix_shards(KV_ALPHA, b['NKV'] - 1, 1)]
     return dict(
         shards=shards, bounds=dict(b, alphabet=ALPHA, separators=[x[0] for x in SEPS], max_split=MAXSPLITS),
         rule=('node lists = strict parse (default context) of every word of length <= N over 10 lexemes that parses, and the same list with '
               'one None entry inserted at each position (lists of <= 3 nodes); x 5 separator kinds x keep_empty x max_split in {None,0,1,2,3} x '
               'skip_none; split_at_node (3 predicates x keep_separators x max_split), filter (5 option sets); parse_keyval_content (4 policies x '
-              'extract on/off).  non-trivial = splits with more than one expected part.'),
+              'extract on/off); key-value purity (tree, default list and repeated result unchanged) on every word of length <= NKV-1 over 8 key-value lexemes.  non-trivial = splits with more than one expected part.'),
         assumptions=['separators are looked for inside top-level chars nodes only, one chars node at a time (reference mc/checks/c18.py:ref_split)',
                      'key-value oracle is the composition of the library\'s own splits (checked above) with the named repeated-key policy'],
     )
@@ -324,6 +368,10 @@ def plan(tier):
 
 def run_shard(shard, tier, acc):
     b = BOUNDS[tier]
+    if shard[0] == 'kv':
+        for w in words.iter_shard(KV_ALPHA, b['NKV'] - 1, shard[1]):
+            check_keyval_purity(words.render(KV_ALPHA, w), acc)
+        return
     for w in words.iter_shard(ALPHA, b['N'], shard[1]):
         s = words.render(ALPHA, w)
         st, res = run_guarded(contexts.parse, s, 'D', False)
@@ -352,6 +400,8 @@ def replay(sub, case):
             nodes = nodes[:i] + [None] + nodes[i:]
         check_lists(case['s'], nodes, acc, sub)
         acc.violations = [v for v in acc.violations if all(v['case'].get(k) == case.get(k) for k in ('sep', 'keep_empty', 'max_split', 'skip_none'))]
+    elif sub == 'kvpure':
+        check_keyval_purity(case['s'], acc)
     elif sub in ('nodesplit', 'filter'):
         check_node_split(case['s'], nodes, acc)
     else:
